@@ -553,6 +553,29 @@ func (c *Ctx) c15ReplayRegister(hubFns []*ssa.Function, fHist, fList *types.Var)
 		if eng.CalleeName(call.Common()) == "(*container/ring.Ring).Do" && eng.SameField(eng.LoadedField(call.Call.Args[0]), fHist) {
 			return true
 		}
+		// the history handed, as value or by address, to a function together with a callback that
+		// relays to a Listener (h.history.replay(func(msg) { l.Receive(msg) })): ring.Do is the
+		// special case where the history is the ring itself
+		if !call.Call.IsInvoke() {
+			hist, relay := false, false
+			for _, a := range call.Call.Args {
+				if eng.SameField(eng.LoadedField(a), fHist) || eng.SameField(eng.AddrField(a), fHist) {
+					hist = true
+				}
+				if cb, _, isFn := eng.FuncValueOf(a); isFn && cb != nil && len(cb.Blocks) > 0 {
+					eng.EachInstr(cb, func(x ssa.Instruction) {
+						if cc := eng.CallOf(x); cc != nil && cc.IsInvoke() {
+							if n, ok := cc.Value.Type().(*types.Named); ok && n.Obj().Name() == "Listener" && n.Obj().Pkg() != nil && strings.HasSuffix(n.Obj().Pkg().Path(), "/pkg/msghub") {
+								relay = true
+							}
+						}
+					})
+				}
+			}
+			if hist && relay {
+				return true
+			}
+		}
 		// an explicit walk: a Listener method called with the Value of a history node
 		if !call.Call.IsInvoke() {
 			return false
@@ -1039,6 +1062,14 @@ func (c *Ctx) c15RingWalks(hubFns []*ssa.Function) {
 			return nil
 		}
 		for _, ref := range *node.Referrers() {
+			// the slot handed to a visitor (visit(slot)): whoever receives it inspects it
+			if call, ok := ref.(*ssa.Call); ok && eng.StaticCallee(call.Common()) == nil && !call.Call.IsInvoke() {
+				for _, a := range call.Call.Args {
+					if a == node {
+						out = append(out, call)
+					}
+				}
+			}
 			if fa, ok := ref.(*ssa.FieldAddr); ok && eng.FieldOfAddr(fa) != nil && eng.FieldOfAddr(fa).Name() == "Value" {
 				for _, r2 := range *fa.Referrers() {
 					if u, ok := r2.(*ssa.UnOp); ok && u.Op == token.MUL {
@@ -1543,7 +1574,7 @@ func (c *Ctx) c15Wiring() {
 				if !isFn || cb == nil {
 					return
 				}
-				reaches := false
+				reaches := cb == w.target
 				for g := range p.SyncReach(cb) {
 					if g == w.target {
 						reaches = true
@@ -1559,7 +1590,9 @@ func (c *Ctx) c15Wiring() {
 					cc := eng.CallOf(x)
 					return cc != nil && eng.StaticCallee(cc) == w.target
 				}
-				if ret := (&eng.Search{Target: eng.IsReturnOf(cb), Avoid: isTarget, Deep: true}).FromEntry(cb); ret == nil {
+				if cb == w.target {
+					good++ // the operation itself is the callback (AddListener(name, hub.Dispatch))
+				} else if ret := (&eng.Search{Target: eng.IsReturnOf(cb), Avoid: isTarget, Deep: true}).FromEntry(cb); ret == nil {
 					good++
 				}
 			})
